@@ -109,7 +109,8 @@ def run_scratch(seeded, props):
         return 0
     finally:
         sh('git worktree remove --force %s' % repo, cwd='/repo')
-        shutil.rmtree(base, ignore_errors=True)
+        if not os.environ.get("SEEDTEST_KEEP"):
+            shutil.rmtree(base, ignore_errors=True)
 
 
 if __name__ == '__main__':
